@@ -425,17 +425,37 @@ func fanOutReachesHandlers(r *Report, p *Program, rule string) {
 		if f == nil {
 			continue
 		}
-		var loop *engine.RangeLoop
-		for _, l := range engine.RangeLoops(f) {
-			if strings.HasSuffix(E(l.X), ".handlers") {
-				loop = l
+		isRet := func(x ssa.Instruction) bool { _, isR := x.(*ssa.Return); return isR }
+		// fans(g): g loops over the registered handlers and cannot return in front of that loop
+		fans := func(g *ssa.Function) (bool, bool) {
+			var loop *engine.RangeLoop
+			for _, l := range engine.RangeLoops(g) {
+				if strings.HasSuffix(E(l.X), ".handlers") {
+					loop = l
+				}
 			}
+			if loop == nil {
+				return false, false
+			}
+			return true, (engine.Query{Fn: g, CutInstr: func(x ssa.Instruction) bool { return x.Block() == loop.Header }, Target: isRet}).Find() == nil
 		}
-		ok, why := loop != nil, "no loop over the registered handlers"
-		if loop != nil {
-			if (engine.Query{Fn: f, CutInstr: func(x ssa.Instruction) bool { return x.Block() == loop.Header },
-				Target: func(x ssa.Instruction) bool { _, isR := x.(*ssa.Return); return isR }}).Find() != nil {
-				ok, why = false, "the event can be dropped before any subscriber is called (a return in front of the loop over the handlers)"
+		has, ok := fans(f)
+		why := "the event can be dropped before any subscriber is called (a return in front of the loop over the handlers)"
+		if !has {
+			// the loop may live in a helper of the same type that is called on every path
+			why = "no loop over the registered handlers"
+			for _, cs := range engine.CallsIn(f, false, func(k string) bool { return strings.Contains(k, "dynamic/informer.sharedEventHandler.") }) {
+				g := cs.Common().StaticCallee()
+				if g == nil || len(g.Blocks) == 0 {
+					continue
+				}
+				if hasG, okG := fans(g); hasG {
+					call := cs.Instr
+					ok = okG && (engine.Query{Fn: f, CutInstr: func(x ssa.Instruction) bool { return x == call }, Target: isRet}).Find() == nil
+					if !ok {
+						why = "the event can be dropped before any subscriber is called (the helper that walks the handlers is not reached on every path, or returns in front of its loop)"
+					}
+				}
 			}
 		}
 		r.Check(rule, FK(f), p.Pos(f.Pos()), ok, "always reaches the subscribers", why)
